@@ -1002,10 +1002,77 @@ func c09R4(p *Prog, r *Report) {
 				if hasList && ownIdx && ownDsp {
 					okFan = true
 				}
+				// `dsp := dsp; go func() { dsp.processSecondaries(flist) }()`: the closure reads
+				// variables of the loop body; each must be a variable made in this pass of the
+				// loop, assigned once before the go statement
+				mc, isMC := g.Call.Value.(*ssa.MakeClosure)
+				if !isMC || okFan {
+					return
+				}
+				cl, _ := mc.Fn.(*ssa.Function)
+				if cl == nil {
+					return
+				}
+				captured := func(v ssa.Value) ssa.Value {
+					ld, ok := v.(*ssa.UnOp)
+					if !ok || ld.Op != token.MUL {
+						return nil
+					}
+					fv, ok := ld.X.(*ssa.FreeVar)
+					if !ok {
+						return nil
+					}
+					for j, q := range cl.FreeVars {
+						if q != fv || j >= len(mc.Bindings) {
+							continue
+						}
+						al, ok := mc.Bindings[j].(*ssa.Alloc)
+						if !ok || !l.Contains(al.Block()) {
+							return nil // one variable for the whole loop: the goroutine sees a later pass's value
+						}
+						var val ssa.Value
+						n := 0
+						for _, ref := range *al.Referrers() {
+							if st, ok := ref.(*ssa.Store); ok && st.Addr == ssa.Value(al) {
+								n++
+								if InstrDominates(st, g) {
+									val = st.Val
+								}
+							}
+						}
+						if n == 1 {
+							return val
+						}
+					}
+					return nil
+				}
+				Instrs(cl, func(x ssa.Instruction) {
+					cc := CallOf(x)
+					if cc == nil || cc.IsInvoke() || len(cc.Args) != 2 {
+						return
+					}
+					if _, isSl := cc.Args[1].Type().Underlying().(*types.Slice); !isSl {
+						return
+					}
+					recvV, listV := captured(cc.Args[0]), captured(cc.Args[1])
+					if recvV == nil || listV == nil {
+						return
+					}
+					lk, isLk := listV.(*ssa.Lookup)
+					own := l.IsElem(recvV)
+					if u, ok := recvV.(*ssa.UnOp); ok && u.Op == token.MUL {
+						if ia, ok := u.X.(*ssa.IndexAddr); ok && ia.Index == l.Idx {
+							own = true
+						}
+					}
+					if isLk && lk.Index == l.Idx && own {
+						okFan = true
+					}
+				})
 			})
 		}
 	}
-	r.Check(okFan, "C09.R4", "each processor cuts the secondaries listed for its own index", p.Pos(ps.Pos()), "the goroutine of processor i is given allSecondaries[i]", "the secondary list handed to a processor is not the one computed for its own index")
+	r.Check(okFan, "C09.R4", "each processor cuts the secondaries listed for its own index", p.Pos(ps.Pos()), "the goroutine of processor i is given allSecondaries[i]", "the goroutine started for a processor is not handed that processor together with the secondary list computed for its own index (as arguments, or in variables made and set once in the same pass of the loop)")
 	// (e) TriggerDataSecondary cuts from the receiver's own stream relative to its own first frame
 	tds := p.Func("", "DataStreamProcessor", "TriggerDataSecondary")
 	okCut := false
